@@ -256,6 +256,8 @@ where
     let mut r#match = None;
     let mut len = 0;
 
+    let start = dst.len();
+
     loop {
         let src = reader.fill_buf()?;
 
@@ -278,7 +280,8 @@ where
 
     let is_eol = matches!(r#match, Some(LINE_FEED));
 
-    if is_eol && dst.ends_with(&[CARRIAGE_RETURN]) {
+    // `dst` also holds the previous fields, so only the field read here is inspected.
+    if is_eol && dst[start..].ends_with(&[CARRIAGE_RETURN]) {
         dst.pop();
     }
 
